@@ -299,6 +299,8 @@ class Tr:
         env = self.kill(env, name)
         env = self.drop_aliases(env, name)
         env[name] = ty
+        if name in env.get("$borrowed", ()):
+            env["$borrowed"] = frozenset(env["$borrowed"]) - {name}
         if ty in self.sums:
             self.sum_names.add(name)
             if name in env.get("$ctor", {}):
@@ -594,7 +596,7 @@ class Tr:
                         and 0 <= e.slice.value < len(comps)):
                     raise Unsupported("tuple subscript that is not a constant index in range")
                 return self.tuple_item(xs, len(comps), e.slice.value), comps[e.slice.value]
-            if not self.is_list(xty):
+            if not self.is_list(xty) or xty == "FS":
                 raise Unsupported(f"subscript of {xty}")
             ity = self.item_of(xty)
             if ity not in self.defaults:
@@ -629,7 +631,7 @@ class Tr:
             src, sty = self.expr0(g.iter, env)
             if not self.is_list(sty):
                 raise Unsupported(f"comprehension over {sty}")
-            inner = self.bind(env, g.target.id, self.item_of(sty))
+            inner = self.borrow(self.bind(env, g.target.id, self.item_of(sty)), g.target.id)
             x = cname(g.target.id)
         else:
             raise Unsupported("comprehension target")
@@ -645,8 +647,13 @@ class Tr:
         src, sty, x, inner = self.comp_parts(e, env)
         if sty is not None and isinstance(e.elt, ast.Name) and isinstance(g.target, ast.Name) \
                 and e.elt.id == g.target.id:
+            if self.item_of(sty) in self.records:
+                raise Unsupported("a list of existing record objects (a second reference to mutable objects)")
             return src, sty
         elt, ety = self.expr0(e.elt, inner)
+        if ety in self.records and not (isinstance(e.elt, ast.Call) and isinstance(e.elt.func, ast.Name)
+                                        and e.elt.func.id in self.known and e.elt.func.id not in inner):
+            raise Unsupported("a list of existing record objects (a second reference to mutable objects)")
         if ety in OPT and is_path(e.elt) and self.known_some(e.elt, inner):
             # an Optional the comprehension's own `if` tested against None
             elt, ety = self.coerce(elt, ety, OPT[ety], ast.unparse(e.elt), e.elt, inner), OPT[ety]
@@ -868,6 +875,10 @@ class Tr:
             x, ty = self.expr0(e.args[0], env)
             if not self.is_list(ty):
                 raise Unsupported(f"{fn} of {ty}")
+            if self.item_of(ty) in self.records and fn != "len":
+                raise Unsupported(f"{fn} of a list of mutable records")
+            if ty == "FS" and fn == "reversed":
+                raise Unsupported("reversed of a frozenset")
             if fn == "reversed":
                 return f"(rev {x})", ty
             if fn == "list":
@@ -959,6 +970,7 @@ class Tr:
             raise Unsupported(f"{ast.unparse(e.func)} updates its receiver, which is not a plain name")
         self.can_hoist(ast.unparse(e.func))
         v = recv.id
+        self.check_mutable_here(v, env)
         lst = env.get("$alias", {}).get(v, (None,))[0]
         others = sum(1 for x in ast.walk(self.stmt_expr) if isinstance(x, ast.Name) and x.id in (v, lst)) - \
             sum(1 for x in ast.walk(e) if isinstance(x, ast.Name) and x.id in (v, lst))
@@ -1250,10 +1262,20 @@ class Tr:
         env2 = self.bind(env2, s.targets[0].id, "B")
         return f"{pad}let '({cname(lst)}, {cname(s.targets[0].id)}) := {text} in\n" + self.block(rest, env2, fin, ind)
 
-    def check_mutable_here(self, name):
+    def borrow(self, env, name):
+        """the target of a `for` / comprehension over a list of records is an item of that list: an update
+        through it would have to reach the list, which is not translated"""
+        if env.get(name) in self.records:
+            env = dict(env)
+            env["$borrowed"] = frozenset(env.get("$borrowed", ())) | {name}
+        return env
+
+    def check_mutable_here(self, name, env=None):
         """an update of a parameter would be invisible to the caller of the generated definition"""
         if name in self.pyargs and not (name == "self" and self.self_is_record()):
             raise Unsupported(f"update of the parameter {name}")
+        if env is not None and name in env.get("$borrowed", ()):
+            raise Unsupported(f"update of {name}, an item of the list being iterated")
 
     def kill_path(self, env, path):
         keep = frozenset(f for f in env.get("$nn", frozenset())
@@ -1285,7 +1307,7 @@ class Tr:
         """v.attr = e  ->  let v := mk .. e .. in   (and the write-back into the list v is an alias into)"""
         pad = "  " * ind
         v, rd, (attr, _proj, fty) = rf
-        self.check_mutable_here(v)
+        self.check_mutable_here(v, env)
         if isinstance(s, ast.AnnAssign) and ann_type(s.annotation) != fty:
             raise Unsupported(f"{v}.{attr} is annotated {ast.unparse(s.annotation)}, declared {fty}")
         (val, _), hs = self.hoisted(s.value, env, lambda: self.expr(s.value, env, fty))
@@ -1399,6 +1421,9 @@ class Tr:
                 self.declared[key] = decl
             if ty in self.records and not key.startswith("@"):
                 return pre + self.record_assign(key, value, t, ty, env, pad, rest, fin, ind) + post
+            if self.is_list(ty) and self.item_of(ty) in self.records and \
+                    not isinstance(value, (ast.ListComp, ast.List)):
+                raise Unsupported(f"{key} = {ast.unparse(value)[:40]}: a second name for a list of mutable records")
             return pre + self.assign(key, t, ty, env, pad, rest, fin, ind) + post
         if isinstance(s, ast.FunctionDef):
             # a local closure without parameters whose assigned names are all nonlocal: inlined at its calls
@@ -1455,6 +1480,8 @@ class Tr:
             if how == "append":
                 if key not in env or not self.is_list(env[key]) or len(c.args) != 1 or c.keywords:
                     raise Unsupported(f"statement {ast.unparse(s)[:80]}")
+                if self.item_of(env[key]) in self.records:
+                    raise Unsupported("append of a mutable record to a list")
                 x, _ = self.expr(c.args[0], env, self.item_of(env[key]))
                 return self.assign(key, f"({cname(key)} ++ [{x}])", env[key], env, pad, rest, fin, ind)
             kwmap = how.get("kwmap", {})          # keyword -> {source text of the value: coq text}
@@ -1532,6 +1559,8 @@ class Tr:
             names = {value.slice.id} if isinstance(value.slice, ast.Name) else set()
             if key == lst or key in names:
                 raise Unsupported("alias of itself")
+            if any(l2 == lst and a != key for a, (l2, _i, _n) in env.get("$alias", {}).items()):
+                raise Unsupported(f"two names for items of {lst}")
             env2 = dict(self.bind(env, key, ty))
             al = dict(env2.get("$alias", {}))
             al[key] = (lst, idx, names)
@@ -1798,7 +1827,7 @@ class Tr:
             if rf is None or not self.is_list(rf[2][2]):
                 raise Unsupported(f"next of {ast.unparse(it)}")
             v, rd, (attr, proj, fty) = rf
-            self.check_mutable_here(v)
+            self.check_mutable_here(v, env)
             ity = self.item_of(fty)
             it_text = f"({proj} {cname(v)})"
             adv = f"{pad}  let {cname(v)} := {self.set_field(v, rd, attr, 'it_')} in\n" + self.write_back(env, v, pad + "  ")
@@ -1814,7 +1843,7 @@ class Tr:
             if rf is None:
                 raise Unsupported(f"assignment target {ast.unparse(tg)}")
             v, rd, (attr, proj, fty) = rf
-            self.check_mutable_here(v)
+            self.check_mutable_here(v, env_ok)
             val = self.coerce("v_", ity, fty, "(next(..))")
             store = f"{pad}  let {cname(v)} := {self.set_field(v, rd, attr, val)} in\n" + \
                 self.write_back(env_ok, v, pad + "  ")
@@ -1851,7 +1880,7 @@ class Tr:
         for v in state:
             env_loop = self.bind(env_loop, v, state_ty[v]) if not v.startswith("@") else env_loop
             env_loop[v] = state_ty[v]
-        env_body = self.bind(env_loop, s.target.id, self.item_of(sty))
+        env_body = self.borrow(self.bind(env_loop, s.target.id, self.item_of(sty)), s.target.id)
         env_body["$y"] = False
 
         def fin_in(e2, k, v=None):
@@ -1959,7 +1988,7 @@ class Tr:
             if not self.is_list(sty):
                 raise Unsupported(f"loop over {sty}")
             ity = self.item_of(sty)
-            env_body = self.bind(env_loop, s.target.id, ity)
+            env_body = self.borrow(self.bind(env_loop, s.target.id, ity), s.target.id)
             head = f"(fun {unpack} {cname(s.target.id)} =>"
         else:
             cond, _ = self.expr(s.test, env_loop, "B")
